@@ -1,4 +1,5 @@
 import Tyme.Lemmas.Cache
+import Tyme.Model.ObjMemo
 /-!
 C10 — answers do not depend on call history, thread interleaving or earlier refusals. Property theorems (`C10_*`).
 Model: `Cache.step` / `Cache.run` (one `LunarMonth::from_ym` per step: look up the memo, else construct and
@@ -94,5 +95,69 @@ theorem C10_look_answer (pure : Int → Int → Option Rec) (c : State) (hi : In
 /-- non-vacuity: a concrete history with a collision candidate and a refusal -/
 example : (run key (fun y m => if m = 13 then none else some ⟨y, m, 30, 0, 0⟩) [] [(1, 12), (11, 2), (2024, 13), (1, 12)]).2 =
     [some ⟨1, 12, 30, 0, 0⟩, some ⟨11, 2, 30, 0, 0⟩, none, some ⟨1, 12, 30, 0, 0⟩] := by decide
+
+
+end Tyme
+
+/-! ### per-object lazy memos of LunarDay / LunarHour (Model/ObjMemo.lean) -/
+namespace Tyme
+open ObjMemo
+
+theorem C10_obj_inv_step {α β : Type} (view : Nat → α → β) (stepArgs : α → Int → α) (o : Obj α β) (op : Op)
+    (hi : Inv view o) :
+    Inv view (step view stepArgs o op).1 ∧ (step view stepArgs o op).2 = (pureStep view stepArgs o.args op).2 ∧
+    (step view stepArgs o op).1.args = (pureStep view stepArgs o.args op).1 := by
+  cases op with
+  | get i =>
+    simp only [step, pureStep, mget]
+    cases hm : o.memo i with
+    | some v =>
+      have := hi i v hm
+      simp only [this]
+      exact ⟨hi, trivial, trivial⟩
+    | none =>
+      refine ⟨?_, rfl, rfl⟩
+      intro j v hj
+      simp only at hj
+      by_cases hji : j = i
+      · simp only [hji, if_true, Option.some.injEq] at hj; rw [← hj, hji]
+      · simp only [hji, if_false] at hj; exact hi j v hj
+  | clone => exact ⟨hi, rfl, rfl⟩
+  | next n =>
+    simp only [step, pureStep, mnext]
+    by_cases h0 : n = 0
+    · simp only [h0, if_true]; exact ⟨hi, trivial, trivial⟩
+    · simp only [h0, if_false]
+      refine ⟨?_, rfl, rfl⟩
+      intro j v hj
+      simp [fresh] at hj
+
+/-- HISTORY INDEPENDENCE of the per-object memos: along ANY history of memoised getters, clones and steps on one value,
+every observable output equals that of the memo-free computation on the numbers alone. -/
+theorem C10_obj_history {α β : Type} (view : Nat → α → β) (stepArgs : α → Int → α) :
+    ∀ (ops : List Op) (o : Obj α β), Inv view o →
+      (run view stepArgs o ops).2 = (pureRun view stepArgs o.args ops).2 ∧ Inv view (run view stepArgs o ops).1 := by
+  intro ops
+  induction ops with
+  | nil => intro o hi; exact ⟨rfl, hi⟩
+  | cons op ops ih =>
+    intro o hi
+    obtain ⟨i1, i2, i3⟩ := C10_obj_inv_step view stepArgs o op hi
+    obtain ⟨j1, j2⟩ := ih _ i1
+    simp only [run, pureRun]
+    rw [i3] at j1
+    exact ⟨by rw [i2, j1], j2⟩
+
+/-- a freshly constructed value satisfies the invariant, so the theorem applies to every value an API user can hold -/
+theorem C10_obj_fresh {α β : Type} (view : Nat → α → β) (stepArgs : α → Int → α) (a : α) (ops : List Op) :
+    (run view stepArgs (fresh a : Obj α β) ops).2 = (pureRun view stepArgs a ops).2 :=
+  (C10_obj_history view stepArgs ops (fresh a) (by intro i v h; simp [fresh] at h)).1
+
+/-- what the invariant excludes: a step that keeps the filled slots (`Self { hour, ..self.clone() }`) answers with the
+old value's view — a concrete two-operation history on which it differs from the memo-free computation -/
+example : let view : Nat → Int → Int := fun _ a => a
+    let o : Obj Int Int := (mget view (fresh 5) 0).2
+    let bad : Obj Int Int := { o with args := o.args + 1 }   -- stepped numbers, slots carried over
+    (mget view bad 0).1 = 5 ∧ view 0 bad.args = 6 := by decide
 
 end Tyme
